@@ -245,7 +245,7 @@ func c04R2(c *Ctx) {
 			te, _ := BoolTests(F, Aliases(committed))
 			bad := ""
 			for _, call := range Calls(F, func(string) bool { return true }) {
-				if call == tc || strings.HasPrefix(CalleeName(call), "builtin:") {
+				if call == tc || !c04IsEffect(call) {
 					continue
 				}
 				if !MustPass(call.(ssa.Instruction), newCut().Edges(te...)) {
@@ -253,13 +253,30 @@ func c04R2(c *Ctx) {
 				}
 			}
 			c.Check(R, key, tc.Pos(), bad == "" && len(te) > 0,
-				ifelse(bad == "" && len(te) > 0, "every other call of the traversal is dominated by the committed==true edge",
+				ifelse(bad == "" && len(te) > 0, "every storage effect, callback, dispatch and repository call of the traversal is dominated by the committed==true edge",
 					"a goroutine that did not win TryCommit can still reach "+bad+": the node may be fetched/pushed more than once"))
 		}
 	}
 	if n == 0 {
 		c.LostAnchor(R, "a traversal claiming its node with TryCommit(param)")
 	}
+}
+
+// c04IsEffect: calls that touch storage, user callbacks, dispatch, or other
+// repository code (as opposed to context/fmt/errors plumbing).
+func c04IsEffect(call ssa.CallInstruction) bool {
+	n := CalleeName(call)
+	if n == nTryCommit {
+		return false
+	}
+	if isPushEffect(call) || strings.HasPrefix(n, "field:") || strings.HasPrefix(n, "dyn:") ||
+		strings.HasSuffix(n, ").Exists") || strings.HasSuffix(n, ").Fetch") || strings.HasSuffix(n, ").FetchCached") {
+		return true
+	}
+	if g := StaticCallee(call); g != nil && inModule(g) {
+		return true
+	}
+	return false
 }
 
 // ---------- R3 ----------
@@ -777,7 +794,7 @@ var c04Mutants = []Mutant{
 		Old: "\t\t\tif opts.PreCopy != nil {\n\t\t\t\tif err := opts.PreCopy(ctx, desc); err != nil {\n\t\t\t\t\treturn nil, err\n\t\t\t\t}\n\t\t\t}\n\t\t\treturn src.Fetch(ctx, desc)", New: "\t\t\treturn src.Fetch(ctx, desc)", Expect: "C04.R4.callback-sequencing|~.mountOrCopyNode$content-getter"},
 	{Name: "skipped-then-copied", File: "copy.go",
 		Old: "\t\t\tif opts.OnCopySkipped != nil {\n\t\t\t\tif err := opts.OnCopySkipped(ctx, desc); err != nil {\n\t\t\t\t\treturn err\n\t\t\t\t}\n\t\t\t}\n\t\t\treturn nil\n\t\t}",
-		New: "\t\t\tif opts.OnCopySkipped != nil {\n\t\t\t\tif err := opts.OnCopySkipped(ctx, desc); err != nil {\n\t\t\t\t\treturn err\n\t\t\t\t}\n\t\t\t\treturn nil\n\t\t\t}\n\t\t}", Expect: "C04.R4.callback-sequencing|~.copyGraph$traverse|one-terminal-action-per-node"},
+		New: "\t\t\tif opts.OnCopySkipped != nil {\n\t\t\t\tif err := opts.OnCopySkipped(ctx, desc); err != nil {\n\t\t\t\t\treturn err\n\t\t\t\t}\n\t\t\t}\n\t\t}", Expect: "C04.R4.callback-sequencing|~.copyGraph$traverse|one-terminal-action-per-node"},
 	{Name: "reader-not-closed", File: "copy.go",
 		Old: "\t\treturn newCopyError(\"Fetch\", CopyErrorOriginSource, err)\n\t}\n\tdefer rc.Close()\n\terr = dst.Push(ctx, desc, rc)", New: "\t\treturn newCopyError(\"Fetch\", CopyErrorOriginSource, err)\n\t}\n\terr = dst.Push(ctx, desc, rc)", Expect: "C04.R4.callback-sequencing|~.doCopyNode|reader-closed"},
 }
